@@ -17,7 +17,7 @@ ASSUMPTIONS = [
 
 
 def plan(tier, seed):
-    return LC.plan(tier, seed)
+    return LC.plan(tier, seed, quick_huge=(52, 100))  # 5200 labels in one layer (about 25 s on one core)
 
 
 def floors(tier):
